@@ -21,13 +21,20 @@ from typing import Any, Callable, Dict, Iterable, List, Optional, Sequence, Tupl
 
 from mc import pdfgen as G
 
-IDENT = (Fr(1), Fr(0), Fr(0), Fr(1), Fr(0), Fr(0))
+IDENT = (1, 0, 0, 1, 0, 0)
+
+
+def num(x):
+    """exact number: ints stay ints (fast), everything else becomes a Fraction"""
+    if isinstance(x, bool):
+        raise TypeError(x)
+    return x if isinstance(x, (int, Fr)) else Fr(x)
 
 
 # ------------------------------------------------------------------ exact algebra
 def mat(*v) -> Tuple[Fr, ...]:
     assert len(v) == 6
-    return tuple(Fr(x) for x in v)
+    return tuple(num(x) for x in v)
 
 
 def mat_mul(m1, m0):
@@ -70,6 +77,11 @@ def close(a, b, tol=1e-9) -> bool:
 
 
 def close_seq(a, b) -> bool:
+    try:
+        if a == b:  # fast path: exact (dyadic operands make the float arithmetic of the implementation exact)
+            return True
+    except Exception:  # noqa
+        pass
     if isinstance(a, (tuple, list)) != isinstance(b, (tuple, list)):
         return False
     if isinstance(a, (tuple, list)):
